@@ -27,4 +27,5 @@ props! {
     "C05" => c05,
     "C06" => c06,
     "C07" => c07,
+    "C08" => c08,
 }
